@@ -808,6 +808,8 @@ def _b_repr(it, args, kw):
 
 def _b_ascii(it, args, kw):
     (x,) = args
+    if isinstance(x, (Opaque, Hole)) and "ascii" in x.props:
+        return x.props["ascii"](x)
     if isinstance(x, SYMBOLIC):
         raise Unsupported("ascii of symbolic value")
     return it.native(ascii, x)
@@ -815,6 +817,8 @@ def _b_ascii(it, args, kw):
 
 def _b_ord(it, args, kw):
     (x,) = args
+    if isinstance(x, (Opaque, Hole)) and "ord" in x.props:
+        return x.props["ord"](x)
     if isinstance(x, SYMBOLIC):
         raise Unsupported("ord of symbolic value")
     return it.native(ord, x)
